@@ -375,6 +375,10 @@ class _Canon(ast.NodeTransformer):
 
     def visit_If(self, n: ast.If):
         self.generic_visit(n)              # the test is now in negation normal form
+        # a test that is a literal (an inlined helper called without an optional argument: `if None:`) selects its branch here
+        if isinstance(n.test, ast.Constant) and (n.test.value is None or isinstance(n.test.value, (bool, int, str))):
+            chosen = n.body if n.test.value else n.orelse
+            return chosen if chosen else ast.copy_location(ast.Pass(), n)
         # `if A and B: X  elif A: Y  [else: Z]`  ->  `if A: (if B: X else: Y)  [else: Z]` -- one branch per case of the dispatch, the
         # refinement inside it (A is a comparison of plain names / attributes / constants: evaluating it once instead of twice changes nothing)
         if isinstance(n.test, ast.BoolOp) and isinstance(n.test.op, ast.And) and len(n.orelse) == 1 and isinstance(n.orelse[0], ast.If):
